@@ -184,6 +184,9 @@ class JsonRPCProtocol:
                     ).to_response_error(),
                 )
             self._request_futures.pop(msg_id, None)
+        except JsonRpcException as error:
+            logger.exception('Exception occurred for message "%s": %s', msg_id, error)
+            self._send_response(msg_id, error=error.to_response_error())
         except Exception:
             error = JsonRpcInternalError.of(sys.exc_info())
             logger.exception('Exception occurred for message "%s": %s', msg_id, error)
